@@ -77,3 +77,100 @@ Proof. vm_compute. reflexivity. Qed.
 (* no equation at all: the template gets `pass` *)
 Example empty_block : equations_block [] = "        pass".
 Proof. reflexivity. Qed.
+
+(* ====================================================================================================== *)
+(* multi-line statements and verbatim blocks                                                              *)
+(* ====================================================================================================== *)
+(* textwrap.indent on a text given by its lines: every line that is not all whitespace gets the eight blanks, the others
+   are kept as they are; no line is dropped, added, reordered or edited *)
+Definition line8 (l : string) : string := if is_blank l then l else prefix8 ++ l.
+
+Lemma lstrip_app_nl l : lstrip_by is_pyspace (l ++ nl_s) = "" <-> lstrip_by is_pyspace l = "".
+Proof.
+  unfold lstrip_by. induction l as [|c l IH]; cbn [append span_while].
+  - assert (E : is_pyspace nl = true) by reflexivity. unfold nl_s. cbn [span_while]. rewrite E. cbn. tauto.
+  - destruct (is_pyspace c).
+    + destruct (span_while is_pyspace (l ++ nl_s)) as [a b]. destruct (span_while is_pyspace l) as [a' b']. cbn [snd] in *. exact IH.
+    + cbn [snd]. split; discriminate.
+Qed.
+Lemma is_blank_app_nl l : is_blank (l ++ nl_s) = is_blank l.
+Proof.
+  unfold is_blank. pose proof (lstrip_app_nl l) as [H1 H2].
+  destruct (lstrip_by is_pyspace (l ++ nl_s)) eqn:E1, (lstrip_by is_pyspace l) eqn:E2; try reflexivity.
+  - specialize (H1 eq_refl). discriminate.
+  - specialize (H2 eq_refl). discriminate.
+Qed.
+
+Lemma concat_s_cons x l : concat_s (x :: l) = x ++ concat_s l.
+Proof. reflexivity. Qed.
+
+Lemma indent8_last l : no_sep l = true -> indent8 l = match l with "" => "" | _ => line8 l end.
+Proof.
+  intros H. unfold indent8. rewrite (splitlines_keep_last l "" H). cbn [rev_str append].
+  destruct l; [reflexivity|]. cbn [map concat_s]. rewrite app_nil_r_s. reflexivity.
+Qed.
+
+Theorem indent8_lines lines :
+  forallb no_sep lines = true -> lines <> [] ->
+  indent8 (join_nl lines) = join_nl (map line8 lines).
+Proof.
+  induction lines as [|l rest IH]; intros H Hne; [contradiction|]. cbn [forallb] in H. apply andb_true_iff in H as [Hl Hr].
+  destruct rest as [|l2 rest'].
+  - cbn [join_nl map]. rewrite (indent8_last l Hl). destruct l; reflexivity.
+  - change (join_nl (l :: l2 :: rest')) with (l ++ nl_s ++ join_nl (l2 :: rest')).
+    change (join_nl (map line8 (l :: l2 :: rest'))) with (line8 l ++ nl_s ++ join_nl (map line8 (l2 :: rest'))).
+    rewrite <- (IH Hr ltac:(discriminate)). unfold indent8 at 1. unfold nl_s at 1. cbn [append].
+    rewrite (splitlines_keep_line l _ "" Hl). cbn [rev_str append map]. rewrite concat_s_cons.
+    fold (indent8 (join_nl (l2 :: rest'))). rewrite is_blank_app_nl. unfold line8.
+    destruct (is_blank l); rewrite ?app_assoc_s; reflexivity.
+Qed.
+
+(* str.splitlines on a text given by its lines (the last one not empty) gives the lines back *)
+Lemma splitlines_line a b : forall cur, no_sep a = true ->
+  splitlines_aux cur (a ++ String nl b) = (rev_str cur "" ++ a) :: splitlines_aux "" b.
+Proof.
+  unfold no_sep. induction a as [|c a IH]; intros cur H; cbn [append splitlines_aux all_chars] in *.
+  - destruct nl_is_sep as [-> ->]. rewrite app_nil_r_s. reflexivity.
+  - apply andb_true_iff in H as [Hc Hs]. apply negb_true_iff in Hc. rewrite Hc, (IH _ Hs).
+    cbn [rev_str]. rewrite (rev_str_acc cur (String c "")), !app_assoc_s. reflexivity.
+Qed.
+Lemma splitlines_lines lines :
+  forallb no_sep lines = true -> last lines "x" <> "" -> splitlines_aux "" (join_nl lines) = lines.
+Proof.
+  induction lines as [|l rest IH]; intros H Hlast; [reflexivity|]. cbn [forallb] in H. apply andb_true_iff in H as [Hl Hr].
+  destruct rest as [|l2 rest'].
+  - cbn [join_nl last] in *. rewrite (splitlines_one l "" Hl). cbn [rev_str append]. destruct l; [contradiction|reflexivity].
+  - change (join_nl (l :: l2 :: rest')) with (l ++ nl_s ++ join_nl (l2 :: rest')). unfold nl_s. cbn [append].
+    rewrite (splitlines_line l _ "" Hl). cbn [rev_str append]. f_equal. apply IH; [exact Hr|exact Hlast].
+Qed.
+
+(* a statement whose normalised equation has the lines elines and whose code has the lines clines — a multi-line
+   verbatim block, or a one-line equation — enters the class text as: every equation line as a comment, then every code
+   line, each indented by eight blanks (all-whitespace code lines kept as they are), in order, nothing else *)
+Theorem statement_lines_in_class_text elines clines :
+  forallb no_sep elines = true -> elines <> [] -> last elines "x" <> "" -> forallb no_sep clines = true -> clines <> [] ->
+  indent8 (default_converter (join_nl elines) (join_nl clines))
+  = join_nl (map line8 (map (fun x => "# " ++ x) elines ++ clines)).
+Proof.
+  intros He Hen Hlast Hc Hne. unfold default_converter. rewrite (splitlines_lines elines He Hlast).
+  assert (E : join_nl (map (fun x => "# " ++ x) elines) ++ nl_s ++ join_nl clines
+              = join_nl (map (fun x => "# " ++ x) elines ++ clines)).
+  { destruct elines as [|e0 er]; [contradiction|]. clear - Hne.
+    revert e0. induction er as [|e1 er IH]; intros e0.
+    - cbn [map app join_nl]. destruct clines; [contradiction|reflexivity].
+    - change (map (fun x => "# " ++ x) (e0 :: e1 :: er)) with (("# " ++ e0) :: map (fun x => "# " ++ x) (e1 :: er)).
+      change (join_nl (("# " ++ e0) :: map (fun x => "# " ++ x) (e1 :: er)))
+        with (("# " ++ e0) ++ nl_s ++ join_nl (map (fun x => "# " ++ x) (e1 :: er))).
+      rewrite !app_assoc_s, (IH e1). reflexivity. }
+  rewrite E. apply indent8_lines.
+  - rewrite forallb_app, Hc, andb_true_r. clear - He. induction elines as [|e er IH]; [reflexivity|].
+    cbn [forallb map] in *. apply andb_true_iff in He as [H1 H2]. rewrite (IH H2), andb_true_r.
+    unfold no_sep in *. cbn [append all_chars]. rewrite H1. reflexivity.
+  - destruct elines; [contradiction|discriminate].
+Qed.
+
+Example verbatim_block_instance :
+  indent8 (default_converter (join_nl ["```"; "x = 1"; ""; "if x:"; "    y = 2"; "```"]) (join_nl ["x = 1"; ""; "if x:"; "    y = 2"]))
+  = join_nl ["        # ```"; "        # x = 1"; "        # "; "        # if x:"; "        #     y = 2"; "        # ```";
+             "        x = 1"; ""; "        if x:"; "            y = 2"].
+Proof. vm_compute. reflexivity. Qed.
